@@ -32,7 +32,7 @@ func (e *E) Key() string { return e.key }
 type U struct {
 	bdd    *BDD
 	tab    map[string]*E
-	atoms  []*E         // var index -> atom expression
+	atoms  []*E // var index -> atom expression
 	atomIx map[string]int
 	nextID int
 }
